@@ -1504,7 +1504,7 @@ get_hist_size(struct isal_zstream *stream, uint8_t *start_in, int32_t buf_hist_s
                         history_size = (stream->total_in - state->block_next);
                 }
         } else if (stream->avail_in + buffered_size == 0 &&
-                   (stream->end_of_stream || stream->flush == FULL_FLUSH)) {
+                   (stream->end_of_stream || state->has_hist == IGZIP_NO_HIST)) {
                 history_size = 0;
         }
         return history_size;
